@@ -4,6 +4,7 @@ import DateutilVerif.Proofs.RenderIsoFinal
 import DateutilVerif.Proofs.RenderCompact
 import DateutilVerif.Proofs.RenderMonFinal
 import DateutilVerif.Proofs.RenderClockFinal
+import DateutilVerif.Proofs.RenderNum
 namespace C02
 open PM Py PT
 
@@ -183,6 +184,51 @@ theorem parse_render_hms_letters (cls : Char → CClass) [AsciiOK cls] (yf : Boo
       .ok { dt := { t with us := 0 }, tz := .naive, tokens := none } :=
   parse_hmsLetters cls yf year century o tznames tzi ho dflt t ht
 
+/-- `convertyear` gives back a year of the 100-year window around `_year` from its last two digits -/
+theorem convertyear_window_inv (now y : Int) (h1 : now - 50 ≤ y) (h2 : y < now + 50) :
+    Gen.convertyear ⟨now / 100 * 100, now⟩ (y % 100) false = .ok y := by
+  obtain ⟨y', hy', _, _, _, huniq⟩ := convertyear_window now (y % 100) (by omega) (by omega)
+  rw [hy', huniq y rfl (by omega) (by omega)]
+
+/-- **family 7**: all-numeric dates with `/` — `MM/DD/YYYY` (no flags), `DD/MM/YYYY` under `dayfirst`, `YYYY/MM/DD`
+    (any `yearfirst`), and the two-digit-year forms `MM/DD/YY`, `DD/MM/YY` (dayfirst), `YY/MM/DD` (yearfirst) for
+    every year within −50..+49 of `parserinfo._year` (with `_century = _year // 100 * 100`, as `parserinfo.__init__`
+    sets it): the date comes back exactly, the time of day from the default. -/
+theorem parse_render_numeric (cls : Char → CClass) [AsciiOK cls] (yfi : Bool) (year : Int) (o : Opts)
+    (tznames : List Token) (tzi : TzInfos) (hfz : o.fuzzy = false) (hfwt : o.fuzzyWithTokens = false)
+    (htz : tzi.applies none = false) (dflt : DT) (hdv : dflt.Valid) (t : DT) (ht : t.Valid) (f : NumFmt)
+    (hflags : numFlagsOk f (o.dayfirst.getD false) (o.yearfirst.getD yfi))
+    (hwin : f.twoDigit = true → year - 50 ≤ t.y ∧ t.y < year + 50) :
+    parse cls (Info.default false yfi year (year / 100 * 100)) o tznames tzi dflt (renderNum f t) =
+      .ok { dt := { t with hh := dflt.hh, mm := dflt.mm, ss := dflt.ss, us := dflt.us }, tz := .naive, tokens := none } := by
+  obtain ⟨⟨hy1, hy2, hm1, hm2, hd1, hd2⟩, hh1, hh2, hmi1, hmi2, hs1, hs2, hu1, hu2⟩ := ht
+  obtain ⟨_, dh1, dh2, dm1, dm2, hds1, hds2, hdu1, hdu2⟩ := hdv
+  have hdim := (Cal.daysInMonth_bounds t.y t.m).2
+  have ey : ((t.y.toNat : Nat) : Int) = t.y := Int.toNat_of_nonneg (by omega)
+  have em : ((t.m.toNat : Nat) : Int) = t.m := Int.toNat_of_nonneg (by omega)
+  have ed : ((t.d.toNat : Nat) : Int) = t.d := Int.toNat_of_nonneg (by omega)
+  have edh : ((dflt.hh.toNat : Nat) : Int) = dflt.hh := Int.toNat_of_nonneg (by omega)
+  have edm : ((dflt.mm.toNat : Nat) : Int) = dflt.mm := Int.toNat_of_nonneg (by omega)
+  have eds : ((dflt.ss.toNat : Nat) : Int) = dflt.ss := Int.toNat_of_nonneg (by omega)
+  have edu : ((dflt.us.toNat : Nat) : Int) = dflt.us := Int.toNat_of_nonneg (by omega)
+  unfold parse
+  rw [lex_renderNum cls f t]
+  have hv : (DT.mk (t.y.toNat : Nat) (t.m.toNat : Nat) (t.d.toNat : Nat) (dflt.hh.toNat : Nat) (dflt.mm.toNat : Nat)
+      (dflt.ss.toNat : Nat) (dflt.us.toNat : Nat)).Valid := by
+    rw [ey, em, ed, edh, edm, eds, edu]
+    exact ⟨⟨hy1, hy2, hm1, hm2, hd1, hd2⟩, dh1, dh2, dm1, dm2, hds1, hds2, hdu1, hdu2⟩
+  have hyy : f.twoDigit = true →
+      Gen.convertyear ⟨year / 100 * 100, year⟩ ((t.y.toNat % 100 : Nat) : Int) false = .ok ((t.y.toNat : Nat) : Int) := by
+    intro h2
+    obtain ⟨w1, w2⟩ := hwin h2
+    have : ((t.y.toNat % 100 : Nat) : Int) = t.y % 100 := by omega
+    rw [this, ey]
+    exact convertyear_window_inv year t.y w1 w2
+  have := tok_num cls yfi year (year / 100 * 100) o tznames tzi hfz hfwt htz dflt f _ _ _ _ _ _ _ hflags hv hyy
+    ⟨edh.symm, edm.symm, eds.symm, edu.symm⟩
+  rw [ey, em, ed, edh, edm, eds, edu] at this
+  exact this
+
 /-- non-vacuity: Python's ASCII classification and the default options meet the hypotheses; a fractional rendering
     with a half-hour negative offset really comes back -/
 example : AsciiOK asciiCls := inferInstance
@@ -193,7 +239,7 @@ example : parse asciiCls (Info.default false false 2024 2000) {} [] .absent ⟨2
     .ok ⟨⟨2003, 9, 25, 10, 49, 41, 502000⟩, .fixed none (-12600), none⟩ := by decide +kernel
 
 /-
-  parse_render_partial — what is left (family 7: US / European / year-first numeric dates and two-digit years; the
+  parse_render_partial — what is left (numeric dates with `-` or `.` separators or followed by a time, `DD-Mon-YY`, `YYMMDD`; the
   `Month D, YYYY h:mm:ss AM` long form, `hAM` without minutes, `HHhMMm`, `HHMMSS.ffffff` after a compact date) has no
   symbolic theorem: for them the round trip rests on the per-run oracle sweep of the implementation and on the
   correspondence of the executable model (the same `PM.parse`) with the implementation on those renderings.
